@@ -330,7 +330,7 @@ def check(fx, rep, tier):
     # ---- R14.15 what Display writes between tokens (blanks, line breaks, `# text` lines) is skipped exactly by the parser's lexical helpers (R13.13)
     rep.rule('R14.15', 'rendered white space and comments parse back: the lexical helpers consume exactly the grammar\'s white space / comments, longest match (rule R13.13 of C13)')
     c13.check_lexical_helpers(rep, crate, 'full', rule='R14.15')
-    rep.floor('R14.15', 18, 'lexical helper verdict instances (3 helpers x 6)')
+    rep.floor('R14.15', 21, 'lexical helper verdict instances (3 helpers x 7)')
     # ---- R14.13 an empty comment (`#` alone on its line - what an empty `///` line becomes) parses
     rep.rule('R14.13', 'an empty comment parses back: the comment recogniser puts no lower bound on the length of the comment text')
     n13 = 0
